@@ -4,6 +4,8 @@ L = 'prysm/polynomials/laguerre.py'
 DK = 'prysm/polynomials/dickson.py'
 CH = 'prysm/polynomials/cheby.py'
 Z = 'prysm/polynomials/zernike.py'
+QP = 'prysm/polynomials/qpoly.py'
+MO = 'prysm/mathops.py'
 CATALOGUE = [
     ('mutant', J, "        Anum = (2 * n + alpha + beta + 1) * (2 * n + alpha + beta + 2)", "        Anum = (2 * n + alpha + beta + 1) * (2 * n + alpha + beta + 3)", 'C07.abc', 'A numerator +3'),
     ('mutant', J, "        Cnum = (n + alpha) * (n + beta) * (2 * n + alpha + beta + 2)", "        Cnum = (n + alpha) * (n + alpha) * (2 * n + alpha + beta + 2)", 'C07.abc', 'C numerator (n+alpha)^2 (invisible for alpha=beta)'),
@@ -23,4 +25,27 @@ CATALOGUE = [
     ('mutant', Z, "            out *= (r ** am * np.sin(am*t))", "            out *= (r ** am * np.sin(m*t))", 'C07.compose', 'negative m sine sign'),
     ('variant', J, "    for i in range(3, n+1):\n        Pnm2, Pnm1 = Pnm1, Pn\n        A, B, C = recurrence_abc(i-1, alpha, beta)\n        Pn = (A * x + B) * Pnm1 - C * Pnm2\n\n    return Pn", "    for k in range(2, n):\n        A, B, C = recurrence_abc(k, alpha, beta)\n        Pnm2, Pnm1 = Pnm1, Pn\n        Pn = x * A * Pnm1 + (B * Pnm1 - Pnm2 * C)\n\n    return Pn", '', 'jacobi loop re-indexed and rearranged'),
     ('variant', H, "    P2 = x * x - 1\n    if n == 2:\n        return P2\n\n    Pnm2 = x\n    Pnm1 = P2", "    P2 = x ** 2 - 1\n    if n == 2:\n        return P2\n\n    Pnm2, Pnm1 = x, P2", '', 'He base cases rewritten'),
+    # Forbes coefficients
+    ('mutant', QP, "        term2 = 1 / 24 * kronecker(n, 1)\n        return term1 - term2", "        term2 = 1 / 24 * kronecker(n, 1)\n        return term1 + term2", 'C07.forbes', 'G_1^1 Kronecker correction sign'),
+    ('mutant', QP, "        term2 = 11 / 32 * kronecker(n, 1)", "        term2 = 11 / 32 * kronecker(n, 2)", 'C07.forbes', 'F_n^1 correction attached to n = 2'),
+    ('mutant', QP, "        return np.sqrt(19) / 2", "        return np.sqrt(19) / 4", 'C07.forbes', 'f_1 of Qbfs halved'),
+    ('mutant', QP, "    return -n * (n - 1) / (2 * f_qbfs(n_minus_2))", "    return -n * (n + 1) / (2 * f_qbfs(n_minus_2))", 'C07.forbes', 'h_qbfs numerator n(n+1)'),
+    ('mutant', QP, "    num = n * (2 * n - 3) * (m + 2 * n - 1) * (2 * m + 2 * n - 3)\n    C = num / D", "    num = n * (2 * n - 3) * (m + 2 * n - 1) * (2 * m + 2 * n - 1)\n    C = num / D", 'C07.forbes', 'C_n^m last factor'),
+    ('mutant', QP, "        return np.sqrt(F_q2d(n, m) - g_q2d(n-1, m) ** 2)", "        return np.sqrt(F_q2d(n, m) - g_q2d(n, m) ** 2)", 'C07.forbes', 'f_n^m uses g_n instead of g_(n-1)'),
+    ('mutant', QP, "        nt2 = (n + 1) * (2 * m + 2 * n - 1)\n        num = nt1 * nt2", "        nt2 = (n + 1) * (2 * m + 2 * n + 1)\n        num = nt1 * nt2", 'C07.forbes', 'G_n^m numerator factor'),
+    ('mutant', MO, "        num = (nm1 + 1) * (2 * m + 2 * nm1 - 1)", "        num = (nm1 + 1) * (2 * m + 2 * nm1 + 1)", 'C07.forbes', 'gamma recurrence numerator'),
+    ('variant', QP, "        t1num = (2 * n ** 2 - 1) * (n ** 2 - 1)\n        t1den = 8 * (4 * n ** 2 - 1)\n        term1 = -t1num / t1den", "        nsq = n * n\n        term1 = (1 - nsq) * (2 * nsq - 1) / (32 * nsq - 8)", '', 'G_n^1 rearranged'),
+    ('variant', QP, "        term1 = n * (n + 1) + 3\n        term2 = g_qbfs(n - 1) ** 2\n        term3 = h_qbfs(n - 2) ** 2\n        return np.sqrt(term1 - term2 - term3)", "        g = g_qbfs(n - 1)\n        h = h_qbfs(n - 2)\n        return np.sqrt(n ** 2 + n + 3 - (g * g + h * h))", '', 'f_qbfs rearranged'),
+    # Q2d / Qbfs / Qcon recurrences
+    ('mutant', QP, '\n    if m == 1:\n        P1 = 1 - x/2\n', '\n    if m == 1:\n        P1 = 1 - x\n', 'C07.qloop', 'Q2d P_1^1 wrong'),
+    ('mutant', QP, '\n        P3 = (5 - x * (60 - x * (120 - 64 * x))) / 10\n', '\n        P3 = (5 - x * (60 - x * (120 - 60 * x))) / 10\n', 'C07.qloop', 'Q2d P_3^1 cubic coefficient'),
+    ('mutant', QP, '\n        min_n = 4\n', '\n        min_n = 3\n', 'C07.qloop', 'Q2d m=1 sweep starts one order early'),
+    ('mutant', QP, '\n        A, B, C = abc_q2d(nn-1, m)\n', '\n        A, B, C = abc_q2d(nn, m)\n', 'C07.qloop', 'Q2d step uses abc of order n instead of n-1'),
+    ('mutant', QP, '\n        gnm1 = g_q2d(nn-1, m)\n        fn = f_q2d(nn, m)\n', '\n        gnm1 = g_q2d(nn-1, m)\n        fn = f_q2d(nn-1, m)\n', 'C07.qloop', 'Q2d step normalises by f_(n-1)'),
+    ('mutant', QP, '        prefix = u ** m * np.sin(m*t)\n    else:\n        prefix = u ** m * np.cos(m*t)\n', '        prefix = u ** m * np.cos(m*t)\n    else:\n        prefix = u ** m * np.sin(m*t)\n', 'C07.qloop', 'Q2d sine and cosine families swapped'),
+    ('mutant', QP, '    for nn in range(2, n+1):\n        Pn = c * Pnm1 - Pnm2\n        Pnm2 = Pnm1\n        Pnm1 = Pn\n        g = g_qbfs(nn - 1)\n        h = h_qbfs(nn - 2)\n', '    for nn in range(2, n+1):\n        Pn = c * Pnm1 - Pnm2\n        Pnm2 = Pnm1\n        Pnm1 = Pn\n        g = g_qbfs(nn - 1)\n        h = h_qbfs(nn - 1)\n', 'C07.qloop', 'Qbfs step uses h_(n-1)'),
+    ('mutant', QP, '        Qnm2 = Qnm1\n        Qnm1 = Qn\n\n    # Qn is certainly defined', '        Qnm1 = Qn\n\n    # Qn is certainly defined', 'C07.qloop', 'Qbfs forgets to rotate Q_(n-2)'),
+    ('mutant', QP, '\n    Pn = jacobi(n, 0, 4, xx)', '\n    Pn = jacobi(n, 4, 0, xx)', 'C07.qloop', 'Qcon Jacobi parameters swapped'),
+    ('variant', QP, '        Pnm2, Pnm1 = Pnm1, Pn\n        Qnm1 = Qn\n\n    # flake8', '        Pnm2 = Pnm1\n        Pnm1 = Pn\n        Qnm1 = Qn\n\n    # flake8', '', 'Q2d rotation written as two statements'),
+    ('variant', QP, '        Qn = (Pn - g * Qnm1 - h * Qnm2) * (1/f)  # small optimization; mul by 1/f instead of div by f\n        Qnm2 = Qnm1\n        Qnm1 = Qn\n\n    # Qn is certainly', '        Qn = (Pn - (g * Qnm1 + h * Qnm2)) / f\n        Qnm2, Qnm1 = Qnm1, Qn\n\n    # Qn is certainly', '', 'Qbfs step rearranged'),
 ]
